@@ -40,6 +40,16 @@ def gen_mix(rng, tier, weights=None, sizes=None):
     for base in rng.sample(chunks, min(len(chunks), 20 if quick else 400)):
         for p in ftlgen.g3_prefixes(base):
             yield case(p)
+    # first character of the INPUT: byte order mark, digits, punctuation, lone CR, non-ASCII ... in front of a
+    # message, a term, a comment, and as the whole input (offset 0 has no previous line)
+    firsts = ["\ufeff", "1", "=", ".", "\t", "\r", "\r\n", "é", "}", "{", " ", "\n", "#", "-", "*", "[", "\"", "\\", "😀"]
+    for f in firsts:
+        for body in ("key = Value\nother = Other\n", "-term = T\nm = { -term }\n", "# comment\nkey = Value\n",
+                     "### res\n\nkey =\n    multi\n    line\n", ""):
+            yield case(f + body)
+            yield case(f + f + body)
+    for src in ftlgen.g7_wide(400000 if quick else 1200000):
+        yield case(src)
     n4 = 4000 if quick else 400000
     for _ in range(n4):
         yield case(ftlgen.g4_soup(rng, 14 if rng.random() < 0.9 else 40))
